@@ -1,3 +1,205 @@
-import Holpy.C11.Model
+import Holpy.C11.Proofs
+/-
+C11 — an item accepted as a definition cannot make a consistent theory inconsistent.
+
+`defOK name T prop` (Model.lean) = what the fixed `Definition.parse` checks on the parsed type and
+statement.  A *structure* for a signature is a finite standard model `M` together with the values
+`ρ 2 n S` of the constants; free and schematic variables (kinds 1 and 0 of the valuation) are
+implicitly universally quantified in a theorem of the theory, so a sequent is *satisfied* by a
+structure when it holds for every admissible valuation with these constants (`Sat`).
+-/
 namespace Holpy.C11
+open Holpy
+
+/-- the sequent holds in the structure (`M`, constants of `ρ`) for all values of the variables -/
+def Sat (M : Model) (ρ : Valuation) (th : Thm) : Prop :=
+  ∀ ρ2, Admissible M ρ2 → (∀ n S, ρ2 2 n S = ρ 2 n S) →
+    (∀ h ∈ th.hyps, holds M ρ2 h) → holds M ρ2 th.prop
+
+/-- the equation `prop` DEFINES `name :: T` conservatively: in every finite standard model, for
+every interpretation of the old signature, the new constant has a value under which the equation
+holds for all values of all (schematic) variables -/
+def Conservative (name : String) (T : Ty) (prop : Term) : Prop :=
+  ∀ M ρ, Admissible M ρ → ∃ c, c < M.size T ∧ Sat M (ρ.update 2 name T c) ⟨[], prop⟩
+
+/-- the new constant is not one of the three logical constants at its logical type
+(`add_term_sig`: "Constant equals already exists") -/
+def freshName (name : String) (T : Ty) : Bool := (logicalKind name T).isNone
+
+/-! ### the interpretation of the defined constant -/
+
+/-- the value the definition gives the constant: the curried function
+`v1 … vn ↦ ⟦rhs⟧[x1 := v1, …, xn := vn]` -/
+def defValue (M : Model) (ρ : Valuation) (v : View) : Nat :=
+  defCode M (v.args.map (·.2)) v.B (fun vs => sem M (argVal ρ v.args vs) [] [] v.rhs)
+
+theorem viewOK_parts {name : String} {T : Ty} {v : View} (h : viewOK name T v = true) :
+    T = arrows (v.args.map (·.2)) v.B ∧ distinct (v.args.map (·.1)) = true ∧ rhsVarsOK v = true ∧
+    noSelfOcc name T v = true ∧ Term.checkedGetType [] v.rhs = .ok v.B := by
+  simp only [viewOK, Bool.and_eq_true, beq_iff_eq] at h
+  obtain ⟨⟨⟨⟨⟨⟨h1, h2⟩, h3⟩, _⟩, _⟩, h6⟩, h7⟩ := h
+  refine ⟨h1, h2, h3, h6, ?_⟩
+  unfold rhsTyped at h7
+  split at h7
+  · rename_i S hS
+    rw [hS, beq_iff_eq.1 h7]
+  · cases h7
+
+theorem lhs_typed (name : String) (T : Ty) (v : View) (hT : T = arrows (v.args.map (·.2)) v.B) :
+    Term.checkedGetType [] (mkLhs name T v.args) = .ok v.B :=
+  checked_applyArgs v.args v.B (.const name T) (by simp [Term.checkedGetType, hT])
+
+theorem update_const_self (ρ : Valuation) (name : String) (T : Ty) (c : Nat) :
+    (ρ.update 2 name T c) 2 name T = c := by
+  simp [Valuation.update]
+
+theorem update_const_other (ρ : Valuation) (name : String) (T : Ty) (c k : Nat) (n : String) (S : Ty)
+    (h : ¬ (k = 2 ∧ n = name ∧ S = T)) : (ρ.update 2 name T c) k n S = ρ k n S := by
+  simp only [Valuation.update]
+  rw [if_neg h]
+
+/-- core: with the constant interpreted by `defValue`, the equation holds for all variables -/
+theorem defValue_sat (name : String) (T : Ty) (v : View) (hv : viewOK name T v = true)
+    (hfresh : freshName name T = true) (M : Model) (ρ : Valuation) (hρ : Admissible M ρ) :
+    defValue M ρ v < M.size T ∧
+      Sat M (ρ.update 2 name T (defValue M ρ v)) ⟨[], mkProp name T v⟩ := by
+  obtain ⟨hT, _, hvars, hself, htyped⟩ := viewOK_parts hv
+  have hF : ∀ vs, EnvOK M (v.args.map (·.2)) vs →
+      sem M (argVal ρ v.args vs) [] [] v.rhs < M.size v.B :=
+    fun vs hvs => sem_lt M _ (argVal_admissible hρ v.args vs hvs) [] [] (EnvOK.nil M) v.rhs v.B htyped
+  have hc : defValue M ρ v < M.size T := by
+    rw [hT]
+    exact defCode_lt M _ _ _ hF
+  refine ⟨hc, ?_⟩
+  intro ρ2 hρ2 hagree _
+  -- ρ2 carries the new constant already; name it
+  have hcval : ρ2 2 name T = defValue M ρ v := by rw [hagree, update_const_self]
+  have hold : ∀ n S, ¬ (n = name ∧ S = T) → ρ2 2 n S = ρ 2 n S := by
+    intro n S hne
+    rw [hagree, update_const_other]
+    exact fun h => hne ⟨h.2.1, h.2.2⟩
+  have hl := lhs_typed name T v hT
+  have hsl := sem_lt M ρ2 hρ2 [] [] (EnvOK.nil M) _ _ hl
+  have hsr := sem_lt M ρ2 hρ2 [] [] (EnvOK.nil M) _ _ htyped
+  show sem M ρ2 [] [] (mkProp name T v) = 1
+  unfold mkProp
+  rw [sem_equals M ρ2 [] [] v.B _ _ hsl hsr, if_pos]
+  -- left-hand side
+  have hfr : logicalKind name T = none := by
+    unfold freshName at hfresh
+    cases hk : logicalKind name T with
+    | none => rfl
+    | some p => rw [hk] at hfresh; cases hfresh
+  have hhead : sem M ρ2 [] [] (.const name T) = defValue M ρ v := by
+    simp only [sem, constVal, hfr, hcval]
+  have hlhs : sem M ρ2 [] [] (mkLhs name T v.args)
+      = sem M (argVal ρ v.args (v.args.map fun p => ρ2 1 p.1 p.2)) [] [] v.rhs := by
+    unfold mkLhs
+    rw [sem_applyArgs M ρ2 v.args v.B (.const name T) (by simp [Term.getType, hT]), hhead]
+    exact appN_defCode M _ _ _ hF _ (envOK_map M ρ2 hρ2 v.args)
+  rw [hlhs]
+  -- right-hand side: only the argument variables and old constants occur
+  apply sem_congr
+  intro a ha
+  obtain ⟨k, n, S⟩ := a
+  have h1 := List.all_eq_true.1 hvars _ ha
+  have h2 := List.all_eq_true.1 hself _ ha
+  simp only [Bool.or_eq_true, Bool.and_eq_true, beq_iff_eq, List.contains_eq_mem, decide_eq_true_eq] at h1
+  rcases h1 with hk | ⟨hk, hmem⟩
+  · -- a constant: not the one being defined
+    subst hk
+    have hne : ¬ (n = name ∧ S = T) := by
+      rintro ⟨rfl, rfl⟩
+      simp [apart_irrefl] at h2
+    show argVal ρ v.args _ 2 n S = ρ2 2 n S
+    rw [argVal_other _ _ _ _ _ _ (by decide), hold n S hne]
+  · subst hk
+    show argVal ρ v.args _ 1 n S = ρ2 1 n S
+    exact argVal_mem ρ ρ2 v.args n S hmem
+
+/-! ### the property -/
+
+/-- An accepted definition (`Definition.parse` sets no error) of a constant that is new is
+conservative: in every finite standard model, whatever the old constants mean, there is a value
+for the new constant under which `c x1 … xn = rhs` holds for all values of all variables. -/
+theorem def_conservative (name : String) (T : Ty) (prop : Term) (h : defOK name T prop = true)
+    (hfresh : freshName name T = true) : Conservative name T prop := by
+  unfold defOK at h
+  cases hv : view? name T prop with
+  | none => rw [hv] at h; cases h
+  | some v =>
+    rw [hv] at h
+    rw [view?_spec name T prop v hv]
+    intro M ρ hρ
+    exact ⟨defValue M ρ v, defValue_sat name T v h hfresh M ρ hρ⟩
+
+example : defOK "K" (Ty.fn (.tvar "a") (Ty.fn (.tvar "b") (.tvar "a")))
+    (.comb (.comb (.const "equals" (Ty.fn (.tvar "a") (Ty.fn (.tvar "a") Ty.bool)))
+      (.comb (.comb (.const "K" (Ty.fn (.tvar "a") (Ty.fn (.tvar "b") (.tvar "a")))) (.var "x" (.tvar "a")))
+        (.var "y" (.tvar "b")))) (.var "x" (.tvar "a"))) = true := by decide
+
+/-- sequents that do not mention the new constant do not notice its value -/
+theorem Sat_update_of_not_occurs (M : Model) (ρ : Valuation) (hρ : Admissible M ρ) (name : String)
+    (T : Ty) (c : Nat) (th : Thm) (hno : ∀ t ∈ th.hyps ++ [th.prop], (2, name, T) ∉ atoms t)
+    (h : Sat M ρ th) : Sat M (ρ.update 2 name T c) th := by
+  intro ρ2 hρ2 hagree hhyps
+  -- put the old value of the constant back
+  have hρ3 : Admissible M (ρ2.update 2 name T (ρ 2 name T)) :=
+    hρ2.update 2 name T _ (hρ 2 name T)
+  have hsame : ∀ t ∈ th.hyps ++ [th.prop],
+      sem M (ρ2.update 2 name T (ρ 2 name T)) [] [] t = sem M ρ2 [] [] t := by
+    intro t ht
+    apply sem_congr
+    intro a ha
+    obtain ⟨k, n, S⟩ := a
+    apply update_const_other
+    rintro ⟨rfl, rfl, rfl⟩
+    exact hno t ht ha
+  have hagree3 : ∀ n S, (ρ2.update 2 name T (ρ 2 name T)) 2 n S = ρ 2 n S := by
+    intro n S
+    by_cases hk : n = name ∧ S = T
+    · obtain ⟨rfl, rfl⟩ := hk
+      exact update_const_self _ _ _ _
+    · have hk' : ¬ (2 = 2 ∧ n = name ∧ S = T) := fun h => hk ⟨h.2.1, h.2.2⟩
+      rw [update_const_other _ _ _ _ _ _ _ hk', hagree, update_const_other _ _ _ _ _ _ _ hk']
+  have := h _ hρ3 hagree3 (fun hh hm => by
+    show sem M _ [] [] hh = 1
+    rw [hsame hh (by simp [hm])]
+    exact hhyps hh hm)
+  show sem M ρ2 [] [] th.prop = 1
+  rw [← hsame th.prop (by simp)]
+  exact this
+
+/-- Adding an accepted definition keeps a satisfiable theory satisfiable: if the sequents `Γ` (which
+do not mention the new constant) are all satisfied by a structure, the same structure with the new
+constant interpreted suitably satisfies `Γ` and the defining equation. -/
+theorem def_keeps_consistency (name : String) (T : Ty) (prop : Term) (h : defOK name T prop = true)
+    (hfresh : freshName name T = true) (Γ : List Thm)
+    (hnew : ∀ th ∈ Γ, ∀ t ∈ th.hyps ++ [th.prop], (2, name, T) ∉ atoms t)
+    (M : Model) (ρ : Valuation) (hρ : Admissible M ρ) (hsat : ∀ th ∈ Γ, Sat M ρ th) :
+    ∃ c, c < M.size T ∧ (∀ th ∈ Γ, Sat M (ρ.update 2 name T c) th) ∧
+      Sat M (ρ.update 2 name T c) ⟨[], prop⟩ := by
+  obtain ⟨c, hc, hdef⟩ := def_conservative name T prop h hfresh M ρ hρ
+  exact ⟨c, hc, fun th hth => Sat_update_of_not_occurs M ρ hρ name T c th (hnew th hth) (hsat th hth), hdef⟩
+
+/-! ### the equation of an accepted definition is well-typed -/
+
+/-- The theorem extension `Definition.get_extension` generates passes `check_thm_type`; its head
+is the declared constant at its declared type and `equals` is used at an instance of its type. -/
+theorem def_ext_welltyped (name cname : String) (T : Ty) (prop : Term) (attrs : List String)
+    (h : defOK name T prop = true) :
+    ∃ th, Ext.theorem (cname ++ "_def") th ∈ getExtension name cname T prop attrs ∧
+      Thm.checkThmType th = true ∧ Ext.constant name T cname ∈ getExtension name cname T prop attrs := by
+  unfold defOK at h
+  cases hv : view? name T prop with
+  | none => rw [hv] at h; cases h
+  | some v =>
+    rw [hv] at h
+    obtain ⟨hT, _, _, _, htyped⟩ := viewOK_parts h
+    refine ⟨⟨[], prop⟩, by simp [getExtension], ?_, by simp [getExtension]⟩
+    rw [view?_spec name T prop v hv]
+    have hl := lhs_typed name T v hT
+    simp [Thm.checkThmType, mkProp, Term.checkedGetType, hl, htyped, bind, Except.bind,
+      Ty.isFun_fn, Ty.domain?_fn, Ty.range?_fn]
+
 end Holpy.C11
